@@ -1,6 +1,8 @@
 /-
   C02 — Loading accepts exactly the well-formed boot informations.
 -/
+import Mb2.Props.FnsMbiLoad
+import Mb2.Props.FnsBiHdr
 import Mb2.Spec
 import Mb2.Lemmas.Arith
 import Mb2.Lemmas.Common
